@@ -713,6 +713,11 @@ func (fx *FnExec) allocOf(t types.Type, why string) Val {
 				fx.setHeap(name, sort, "(store "+fx.heapArr(name, sort)+" "+r+" "+fx.zero(u.Field(i).Type())+")")
 			}
 		}
+		// a zero strings.Builder is empty (ghost content used by the contracts of its methods)
+		if namedTypeName(t) == "strings.Builder" && fx.W.Contracts != nil && fx.W.Contracts.ghost("sb") != nil {
+			cur, _ := fx.ghostVal(fx.cur.gh, "sb")
+			fx.cur.gh["sb"] = fx.define("gh_sb", "(Array Int Str)", "(store "+cur+" "+r+" "+fx.strConstTerm("")+")")
+		}
 		return Val{T: ptr, S: r}
 	case *types.Array:
 		a := fx.freshRef(why)
